@@ -444,3 +444,10 @@ def r15(rr, repo):
                 rr.ob(f"send_push {'sends nothing to' if want == 2 else 'sends to'} a source of level {want}", isinstance(t, Lit) and bool(t.v) == (want < 2), za.mod, sp_guard[0], witness=f'{U(sp_guard[0].test)} -> {t!r}', key=f'send-push-level|{want}')
         except (Undecided, Raised) as exc:
             rr.unresolved(f'the ephemeral level of {text!r} could not be evaluated', za.mod, level, witness=str(exc)[:100], key=f'ephemeral-levels|{text}')
+
+
+@rule('C05.R16', "a synchronized consumer stays synchronized when the pipeline is wired by the command line: the address the CLI remembers for a filter id is the bare address, and each consumer gets it "
+                 "with ITS OWN suffix - remembered with the first consumer's '?' it would make every later consumer of that id a listener the publisher never waits for (shares C12.R2)")
+def r16(rr, repo):
+    from .c12 import r2 as c12r2
+    c12r2(rr, repo)
